@@ -1,5 +1,7 @@
 #!/venv/bin/python
 """Run every check against behaviour-preserving refactorings (diffs) and report alarms (= false alarms to fix).
+With SA_SELECT=1 only the checks that analyse a function of a module the diff touches are run (modules taken from
+the committed evidence files) - a third of the work, for the gate over the whole corpus.
 
 usage: refactor_check.py <dir-with-diffs> [...]   each *.diff is applied alone to a scratch worktree of /repo HEAD.
 """
@@ -7,6 +9,25 @@ import glob, os, subprocess, sys, tempfile
 from concurrent.futures import ThreadPoolExecutor
 
 ALL = ['C%02d' % i for i in range(1, 21)]
+SELECT = os.environ.get('SA_SELECT') == '1'
+MODS = {}
+if SELECT:
+    import json, re
+    for p in ALL:
+        ev = json.load(open('/verif/evidence/%s.json' % p))
+        MODS[p] = set(f.split(':')[0] for f in ev['coverage']['functions_analysed'])
+
+
+def wanted(diff):
+    if not SELECT:
+        return ALL
+    touched = set()
+    for line in open(diff):
+        m = re.match(r'^\+\+\+ b/lib/python/(.*)\.py', line)
+        if m:
+            mod = m.group(1).replace('/', '.')
+            touched.add(mod[:-9] if mod.endswith('.__init__') else mod)
+    return [p for p in ALL if MODS[p] & touched] or ALL
 diffs = []
 for d in sys.argv[1:]:
     diffs += sorted(glob.glob(os.path.join(d, '*.diff'))) if os.path.isdir(d) else ([d] if d.endswith('.diff') else [])
@@ -24,7 +45,7 @@ def one(diff):
         ev = tempfile.mkdtemp()
         env = dict(os.environ, TREADMILL_SA_REPO=wt, TREADMILL_SA_EVIDENCE=ev)
         out = []
-        for p in ALL:
+        for p in wanted(diff):
             r = subprocess.run(['/verif/check', p], env=env, stdout=subprocess.PIPE, universal_newlines=True)
             if r.returncode:
                 lines = [l for l in r.stdout.splitlines() if ': [' in l or 'ANALYSIS-ERROR' in l]
